@@ -359,6 +359,7 @@ fn is_frame_assignment_free(s: &Stmt) -> bool {
 /// name that a later statement binds - late binding - legitimately changes the outcome).
 fn reeval_candidates(program: &[Stmt]) -> Vec<usize> {
     let assigned_by: Vec<BTreeSet<String>> = program.iter().map(|s| stmt_frame(s).possible).collect();
+    let frees: Vec<BTreeSet<String>> = program.iter().map(|s| stmt_expr(s).map(|e| free_names(&e).0).unwrap_or_default()).collect();
     let mut out = vec![];
     for (i, s) in program.iter().enumerate() {
         if !is_frame_assignment_free(s) {
@@ -368,7 +369,20 @@ fn reeval_candidates(program: &[Stmt]) -> Vec<usize> {
         let (free, _) = free_names(e);
         let later: BTreeSet<&String> = assigned_by[i..].iter().flatten().collect();
         let earlier: BTreeSet<&String> = assigned_by[..i].iter().flatten().collect();
-        if free.iter().all(|n| !later.contains(n) || earlier.contains(n)) {
+        if !free.iter().all(|n| !later.contains(n) || earlier.contains(n)) {
+            continue;
+        }
+        // ... and no statement after it binds a name that an earlier statement already refers
+        // to (a function reached from this statement may be waiting for that name)
+        let mut late_bound_later = false;
+        for k in (i + 1)..program.len() {
+            for n in &assigned_by[k] {
+                if frees[..k].iter().any(|f| f.contains(n)) {
+                    late_bound_later = true;
+                }
+            }
+        }
+        if !late_bound_later {
             out.push(i);
         }
     }
